@@ -134,12 +134,16 @@ func runQuery(query string, timeoutS int, wantModel bool) SolverAnswer {
 	return last
 }
 
+// firstLine: the first line of the solver's output that is not a warning.
 func firstLine(s string) string {
-	s = strings.TrimSpace(s)
-	if i := strings.IndexByte(s, '\n'); i >= 0 {
-		return s[:i]
+	for _, l := range strings.Split(strings.TrimSpace(s), "\n") {
+		l = strings.TrimSpace(l)
+		if l == "" || strings.HasPrefix(l, "WARNING") {
+			continue
+		}
+		return l
 	}
-	return s
+	return ""
 }
 
 func runOne(s solverSpec, file string, timeoutS int) SolverAnswer {
@@ -329,6 +333,7 @@ const basePrelude = `(set-option :produce-models true)
 (declare-sort F 0)
 (declare-sort U 0)
 (declare-fun slen (Str) Int)
+(assert (forall ((s Str)) (! (>= (slen s) 0) :pattern ((slen s)))))
 (declare-fun sat (Str Int) Int)
 (declare-datatypes ((Slice 0)) (((mk-slice (s.arr Int) (s.off Int) (s.len Int) (s.cap Int)))))
 (declare-datatypes ((Iface 0)) (((mk-iface (i.tag Int) (i.pay Int)))))
